@@ -161,10 +161,9 @@ def _classdefault(ctx, index, env):
                 helper = index.funcs.get(index.callee(f.mod, e, f) or "")
             if helper is not None:
                 g = helper.node
-                rets = [x for x in g.body if isinstance(x, ast.Return)]
-                plain = all(isinstance(x, ast.Return) or (isinstance(x, ast.Expr) and isinstance(x.value, ast.Constant)) for x in g.body)
-                if len(rets) == 1 and plain and len(g.args.args) == len(args) and not e.keywords:
-                    target = ([a.arg for a in g.args.args], rets[0].value)
+                as_e = _body_as_expr([x for x in g.body if not (isinstance(x, ast.Expr) and isinstance(x.value, ast.Constant))])
+                if as_e is not None and len(g.args.args) == len(args) and not e.keywords:
+                    target = ([a.arg for a in g.args.args], as_e)
             elif isinstance(fn, ast.Lambda) and len(fn.args.args) == len(args):
                 target = ([a.arg for a in fn.args.args], fn.body)
             if target is not None:
@@ -230,6 +229,25 @@ def _classdefault(ctx, index, env):
 
 
 _NODE = object()
+
+
+def _body_as_expr(stmts):
+    """
+    the one expression a helper body denotes: `return E`, or guard clauses `if T: return A` (with or without `else`)
+    followed by the rest — folded into `A if T else <rest>`; None when the body is anything else
+    """
+    if not stmts:
+        return None
+    st = stmts[0]
+    if isinstance(st, ast.Return) and len(stmts) == 1:
+        return st.value if st.value is not None else ast.Constant(value=None)
+    if isinstance(st, ast.If):
+        a = _body_as_expr(st.body)
+        b = _body_as_expr(st.orelse + stmts[1:]) if not (st.orelse and stmts[1:] and _body_as_expr(st.orelse) is not None) else _body_as_expr(st.orelse)
+        if a is None or b is None:
+            return None
+        return ast.copy_location(ast.IfExp(test=st.test, body=a, orelse=b), st)
+    return None
 
 
 def _required(ctx, index):
